@@ -319,6 +319,30 @@ def run(prog, R):
             elif body in cx.prn_cls or body is cx.prn:
                 ok = bool(msg) and all(r.is_call('std::mem::replace') for r in msg)
                 what = 'next() recycles the set replaced by mem::replace'
+                if not ok and not t.args[1].is_const and t.args[1].place.is_local():
+                    # `mem::swap(&mut self.current, &mut received); send(received)`: after the swap the local holds the previous set
+                    du_ = DefUse(body)
+
+                    def base_local(l, depth=0):
+                        # the variable a temporary was moved / borrowed from
+                        for d in du_.defs.get(l, []):
+                            if d[2] == 'assign' and depth < 4:
+                                rv_ = d[3].rv
+                                if rv_.k == 'use' and not rv_.ops[0].is_const and rv_.ops[0].place.is_local():
+                                    return base_local(rv_.ops[0].place.local, depth + 1)
+                                if rv_.k == 'ref' and all(q['k'] == 'deref' for q in rv_.place.proj):
+                                    return base_local(rv_.place.local, depth + 1)
+                                if rv_.k == 'ref':
+                                    return ('field', rv_.place.local)
+                        return l
+                    ml = base_local(t.args[1].place.local)
+                    for y, t2 in body.calls():
+                        if t2.callee and t2.callee.path == 'std::mem::swap' and len(t2.args) == 2 and body.cfg.dominates(y, blk):
+                            bases = [base_local(a_.place.local) if (not a_.is_const and a_.place.is_local()) else None for a_ in t2.args]
+                            selfs = [bool(roots_of(body, a_, du_)) and all(r_[0] == 'arg' and r_[1] == 1 and r_[-1] for r_ in roots_of(body, a_, du_)) if not a_.is_const else False for a_ in t2.args]
+                            if (bases[0] == ml and selfs[1]) or (bases[1] == ml and selfs[0]):
+                                ok = True
+                                what = 'next() recycles the set it held before (exchanged with the received one by mem::swap)'
             else:
                 ok = False
                 what = 'unexpected sender on the recycle channel'
